@@ -2,7 +2,7 @@
   QV.Proofs.ZoneFile.Records — the record parser on rendered records, directives, and whole
   files of the presentation subset of `C23_records_partial`.
 -/
-import QV.Proofs.ZoneFile.Mnemonic
+import QV.Proofs.ZoneFile.Gaps
 
 namespace QV.ZF
 open QV QV.Spec.ZF
@@ -19,122 +19,138 @@ def clsChoice (ctx : Ctx) : Option Nat → Option Nat
   | some k => some k
   | none => ctx.prevClass
 
-/-- TTL and class texts, each present or not, in either order -/
-def tcText (sep : List UInt8) (ttl : Option Nat) (clsT : Option (List UInt8)) (cf : Bool) : List UInt8 :=
-  let t := match ttl with
-    | some t => decimal t ++ sep
-    | none => []
-  let c := match clsT with
-    | some c => c ++ sep
-    | none => []
-  if cf then c ++ t else t ++ c
+/-- TTL and class texts, each present or not, in either order; `gA` after the first that is
+    present, `gB` after the second -/
+def tcText (gA gB : List UInt8) (ttl : Option Nat) (clsT : Option (List UInt8)) (cf : Bool) : List UInt8 :=
+  match ttl, clsT with
+  | some t, some c => if cf then c ++ (gA ++ (decimal t ++ gB)) else decimal t ++ (gA ++ (c ++ gB))
+  | some t, none => decimal t ++ gA
+  | none, some c => c ++ gA
+  | none, none => []
 
-theorem ttlClassText_eq (sep : List UInt8) (ttl : Option Nat) (cls : Option PCode) (cf : Bool) :
-    ttlClassText sep ttl cls cf = tcText sep ttl (cls.map classText) cf := by
-  cases cls <;> rfl
+theorem ttlClassText_eq (gA gB : List UInt8) (ttl : Option Nat) (cls : Option PCode) (cf : Bool) :
+    ttlClassText gA gB ttl cls cf = tcText gA gB ttl (cls.map classText) cf := by
+  cases ttl <;> cases cls <;> rfl
+
+/-- parenthesis state after the TTL and class fields -/
+def tcEnd {α β} (q1 q2 q3 : Bool) (ttl : Option α) (cls : Option β) : Bool :=
+  match ttl, cls with
+  | some _, some _ => q3
+  | none, none => q1
+  | _, _ => q2
+
+/-- line ends in the gaps after the TTL and class fields -/
+def tcLines {α β} (a b : Nat) (ttl : Option α) (cls : Option β) : Nat :=
+  match ttl, cls with
+  | some _, some _ => a + b
+  | none, none => 0
+  | _, _ => a
 
 theorem skip_nil (k : Kind) (c : UInt8) (r : List UInt8) (hc : fieldStart c) (line : Nat) (paren : Bool) :
     skipToNextField k ⟨c :: r, line, paren⟩ = .ok ((), ⟨c :: r, line, paren⟩) :=
   skipToNextField_gap k [] (by simp) c r hc line paren
 
-/-- skip blanks up to a text that starts a field -/
-theorem skipTo (k : Kind) (sep X : List UInt8) (hsep : ∀ x ∈ sep, isWs x = true)
-    (hX : ∃ c t, X = c :: t ∧ fieldStart c) (line : Nat) (paren : Bool) :
-    skipToNextField k ⟨sep ++ X, line, paren⟩ = .ok ((), ⟨X, line, paren⟩) := by
-  obtain ⟨c, t, rfl, hc⟩ := hX
-  exact skipToNextField_gap k sep hsep c t hc line paren
-
 theorem skipTo_nil (k : Kind) (X : List UInt8) (hX : ∃ c t, X = c :: t ∧ fieldStart c) (line : Nat)
     (paren : Bool) : skipToNextField k ⟨X, line, paren⟩ = .ok ((), ⟨X, line, paren⟩) := by
-  have := skipTo k [] X (by simp) hX line paren
-  simpa using this
+  obtain ⟨c, t, rfl, hc⟩ := hX
+  exact skip_nil k c t hc line paren
 
 theorem decimal_starts (n : Nat) (rest : List UInt8) : ∃ c t, decimal n ++ rest = c :: t ∧ fieldStart c := by
   obtain ⟨d, ds, hd, hs⟩ := decimal_head n
   exact ⟨d, ds ++ rest, by rw [hd]; rfl, hs⟩
 
-/-- **TTL and class fields**: each written or omitted, in either order, followed by the type
-    field: the values are the written ones, or the context's defaults -/
-theorem ttlClass_eval (ctx : Ctx) (sep : List UInt8) (hne : sep ≠ []) (hsep : ∀ x ∈ sep, isWs x = true)
+/-- **TTL and class fields**: each written or omitted, in either order, with general gaps after
+    them, followed by the type field: the values are the written ones, or the context's defaults -/
+theorem ttlClass_eval (ctx : Ctx) (gA gB : PGap) (q1 q2 q3 : Bool)
     (ttl : Option Nat) (cls : Option (List UInt8 × Nat)) (cf : Bool) (ht : ∀ t, ttl = some t → t ≤ 4294967295)
-    (hk : ∀ T k, cls = some (T, k) → ClassTextOK T k) (tyT : List UInt8) (ty : Nat) (hty : TypeTextOK tyT ty)
+    (hk : ∀ T k, cls = some (T, k) → ClassTextOK T k)
+    (hA : ttl.isSome = true ∨ cls.isSome = true → GapOK gA q1 q2)
+    (hB : ttl.isSome = true → cls.isSome = true → GapOK gB q2 q3)
+    (tyT : List UInt8) (ty : Nat) (hty : TypeTextOK tyT ty)
     (R : List UInt8) (hR : atFieldEnd R = true) (tv cv : Nat)
     (htv : ttlChoice ctx ttl = some tv) (hcv : clsChoice ctx (cls.map (·.2)) = some cv) (line : Nat) :
-    ∃ st1, parseTtlAndClass ctx ⟨tcText sep ttl (cls.map (·.1)) cf ++ (tyT ++ R), line, false⟩ =
+    ∃ st1, parseTtlAndClass ctx ⟨tcText (gapText gA) (gapText gB) ttl (cls.map (·.1)) cf ++ (tyT ++ R), line, q1⟩ =
         .ok ((tv, cv), st1) ∧
-      skipToNextField .ExpectedType st1 = .ok ((), ⟨tyT ++ R, line, false⟩) := by
-  have hTend : atFieldEnd (sep ++ (tyT ++ R)) = true := atFieldEnd_sep sep _ hne hsep
-  have hTstart := hty.field.head R
-  have hTfail := parseTtl_fails tyT R hty.field.plain hty.field.len hR hty.notU32 line false
-  have hCfail : tryP parseClassField ⟨tyT ++ R, line, false⟩ = .ok (none, ⟨tyT ++ R, line, false⟩) :=
-    tryP_err (readField_plain_none parseClass _ _ R hty.field.plain hty.field.len hR hty.notClass line false)
+      skipToNextField .ExpectedType st1 =
+        .ok ((), ⟨tyT ++ R, line + tcLines (gapLines gA) (gapLines gB) ttl cls, tcEnd q1 q2 q3 ttl cls⟩) := by
+  have hTstart : Starts (tyT ++ R) := hty.field.head R
+  have hTfail := fun l q => parseTtl_fails tyT R hty.field.plain hty.field.len hR hty.notU32 l q
+  have hCfail : ∀ l q, tryP parseClassField ⟨tyT ++ R, l, q⟩ = .ok (none, ⟨tyT ++ R, l, q⟩) := fun l q =>
+    tryP_err (readField_plain_none parseClass _ _ R hty.field.plain hty.field.len hR hty.notClass l q)
   cases ttl with
   | some t =>
     have ht' := ht t rfl
     simp only [ttlChoice, Option.some.injEq] at htv
     subst htv
+    have gAok := hA (.inl rfl)
     cases cls with
     | some ck =>
       obtain ⟨cT, k⟩ := ck
       have hk' := hk cT k rfl
+      have gBok := hB rfl rfl
       simp only [clsChoice, Option.map_some, Option.some.injEq] at hcv
       subst hcv
-      refine ⟨⟨sep ++ (tyT ++ R), line, false⟩, ?_, skipTo _ sep _ hsep hTstart line false⟩
+      refine ⟨⟨gapText gB ++ (tyT ++ R), line + gapLines gA, q2⟩, ?_, by
+        simpa [tcLines, tcEnd, Nat.add_assoc] using gBok.skip .ExpectedType _ hTstart (line + gapLines gA)⟩
       unfold parseTtlAndClass
-      have hcls : ∀ rest, atFieldEnd rest = true →
-          parseClassField ⟨cT ++ rest, line, false⟩ = .ok (k, ⟨rest, line, false⟩) := fun rest hrest =>
-        readField_plain parseClass _ _ rest k hk'.field.plain hk'.field.len hrest hk'.parse line false
+      have hcls : ∀ rest l q, atFieldEnd rest = true →
+          parseClassField ⟨cT ++ rest, l, q⟩ = .ok (k, ⟨rest, l, q⟩) := fun rest l q hrest =>
+        readField_plain parseClass _ _ rest k hk'.field.plain hk'.field.len hrest hk'.parse l q
       cases cf with
       | false =>
-        have e : tcText sep (some t) (Option.map (·.1) (some (cT, k))) false ++ (tyT ++ R) =
-            decimal t ++ (sep ++ (cT ++ (sep ++ (tyT ++ R)))) := by simp [tcText]
+        have e : tcText (gapText gA) (gapText gB) (some t) (Option.map (·.1) (some (cT, k))) false ++ (tyT ++ R) =
+            decimal t ++ (gapText gA ++ (cT ++ (gapText gB ++ (tyT ++ R)))) := by simp [tcText]
         rw [e]
-        simp only [bind, P.bind, tryP_ok (parseTtl_decimal t ht' _ (atFieldEnd_sep sep _ hne hsep) line false),
-          skipTo .ExpectedClassOrType sep _ hsep (hk'.field.head _) line false,
-          tryP_ok (hcls _ hTend), pure, P.pure]
+        simp only [bind, P.bind, tryP_ok (parseTtl_decimal t ht' _ (gAok.atEnd _) line q1),
+          gAok.skip .ExpectedClassOrType _ (hk'.field.head _) line,
+          tryP_ok (hcls _ _ _ (gBok.atEnd _)), pure, P.pure]
       | true =>
-        have e : tcText sep (some t) (Option.map (·.1) (some (cT, k))) true ++ (tyT ++ R) =
-            cT ++ (sep ++ (decimal t ++ (sep ++ (tyT ++ R)))) := by simp [tcText]
+        have e : tcText (gapText gA) (gapText gB) (some t) (Option.map (·.1) (some (cT, k))) true ++ (tyT ++ R) =
+            cT ++ (gapText gA ++ (decimal t ++ (gapText gB ++ (tyT ++ R)))) := by simp [tcText]
         rw [e]
-        have hEnd2 : atFieldEnd (sep ++ (decimal t ++ (sep ++ (tyT ++ R)))) = true :=
-          atFieldEnd_sep sep _ hne hsep
-        have h1 := parseTtl_fails cT _ hk'.field.plain hk'.field.len hEnd2 hk'.notU32 line false
-        simp only [bind, P.bind, h1, tryP_ok (hcls _ hEnd2),
-          skipTo .ExpectedTtlOrType sep _ hsep (decimal_starts t _) line false,
-          tryP_ok (parseTtl_decimal t ht' (sep ++ (tyT ++ R)) hTend line false), pure, P.pure]
+        have h1 := parseTtl_fails cT _ hk'.field.plain hk'.field.len (gAok.atEnd (decimal t ++ (gapText gB ++ (tyT ++ R))))
+          hk'.notU32 line q1
+        simp only [bind, P.bind, h1, tryP_ok (hcls _ _ _ (gAok.atEnd _)),
+          gAok.skip .ExpectedTtlOrType _ (decimal_starts t _) line,
+          tryP_ok (parseTtl_decimal t ht' _ (gBok.atEnd _) _ _), pure, P.pure]
     | none =>
-      refine ⟨⟨tyT ++ R, line, false⟩, ?_, skipTo_nil _ _ hTstart line false⟩
+      refine ⟨⟨tyT ++ R, line + gapLines gA, q2⟩, ?_, by
+        simpa [tcLines, tcEnd] using skipTo_nil .ExpectedType _ hTstart (line + gapLines gA) q2⟩
       unfold parseTtlAndClass
-      have e : tcText sep (some t) (Option.map (·.1) (none : Option (List UInt8 × Nat))) cf ++ (tyT ++ R) =
-          decimal t ++ (sep ++ (tyT ++ R)) := by cases cf <;> simp [tcText]
+      have e : tcText (gapText gA) (gapText gB) (some t) (Option.map (·.1) (none : Option (List UInt8 × Nat))) cf ++ (tyT ++ R) =
+          decimal t ++ (gapText gA ++ (tyT ++ R)) := by simp [tcText]
       rw [e]
       simp only [clsChoice, Option.map_none] at hcv
-      simp only [bind, P.bind, tryP_ok (parseTtl_decimal t ht' _ hTend line false),
-        skipTo .ExpectedClassOrType sep _ hsep hTstart line false, hCfail, hcv, pure, P.pure]
+      simp only [bind, P.bind, tryP_ok (parseTtl_decimal t ht' _ (gAok.atEnd _) line q1),
+        gAok.skip .ExpectedClassOrType _ hTstart line, hCfail, hcv, pure, P.pure]
   | none =>
     simp only [ttlChoice] at htv
     cases cls with
     | some ck =>
       obtain ⟨cT, k⟩ := ck
       have hk' := hk cT k rfl
+      have gAok := hA (.inr rfl)
       simp only [clsChoice, Option.map_some, Option.some.injEq] at hcv
       subst hcv
-      refine ⟨⟨tyT ++ R, line, false⟩, ?_, skipTo_nil _ _ hTstart line false⟩
+      refine ⟨⟨tyT ++ R, line + gapLines gA, q2⟩, ?_, by
+        simpa [tcLines, tcEnd] using skipTo_nil .ExpectedType _ hTstart (line + gapLines gA) q2⟩
       unfold parseTtlAndClass
-      have e : tcText sep none (Option.map (·.1) (some (cT, k))) cf ++ (tyT ++ R) =
-          cT ++ (sep ++ (tyT ++ R)) := by cases cf <;> simp [tcText]
+      have e : tcText (gapText gA) (gapText gB) none (Option.map (·.1) (some (cT, k))) cf ++ (tyT ++ R) =
+          cT ++ (gapText gA ++ (tyT ++ R)) := by simp [tcText]
       rw [e]
-      have h1 := parseTtl_fails cT (sep ++ (tyT ++ R)) hk'.field.plain hk'.field.len hTend hk'.notU32 line false
-      have hcls : parseClassField ⟨cT ++ (sep ++ (tyT ++ R)), line, false⟩ = .ok (k, ⟨sep ++ (tyT ++ R), line, false⟩) :=
-        readField_plain parseClass _ _ _ k hk'.field.plain hk'.field.len hTend hk'.parse line false
-      simp only [bind, P.bind, h1, tryP_ok hcls, skipTo .ExpectedTtlOrType sep _ hsep hTstart line false,
+      have h1 := parseTtl_fails cT _ hk'.field.plain hk'.field.len (gAok.atEnd (tyT ++ R)) hk'.notU32 line q1
+      have hcls : parseClassField ⟨cT ++ (gapText gA ++ (tyT ++ R)), line, q1⟩ =
+          .ok (k, ⟨gapText gA ++ (tyT ++ R), line, q1⟩) :=
+        readField_plain parseClass _ _ _ k hk'.field.plain hk'.field.len (gAok.atEnd _) hk'.parse line q1
+      simp only [bind, P.bind, h1, tryP_ok hcls, gAok.skip .ExpectedTtlOrType _ hTstart line,
         hTfail, htv, pure, P.pure]
     | none =>
       simp only [clsChoice, Option.map_none] at hcv
-      refine ⟨⟨tyT ++ R, line, false⟩, ?_, skipTo_nil _ _ hTstart line false⟩
+      refine ⟨⟨tyT ++ R, line, q1⟩, ?_, by
+        simpa [tcLines, tcEnd] using skipTo_nil .ExpectedType _ hTstart line q1⟩
       unfold parseTtlAndClass
-      have e : tcText sep none (Option.map (·.1) (none : Option (List UInt8 × Nat))) cf ++ (tyT ++ R) = tyT ++ R := by
-        cases cf <;> simp [tcText]
+      have e : tcText (gapText gA) (gapText gB) none (Option.map (·.1) (none : Option (List UInt8 × Nat))) cf ++ (tyT ++ R) =
+          tyT ++ R := by simp [tcText]
       rw [e]
       simp only [bind, P.bind, hTfail, hCfail, htv, hcv, pure, P.pure]
 
@@ -153,15 +169,15 @@ theorem parseTypeField_eval (tyT : List UInt8) (ty : Nat) (hty : TypeTextOK tyT 
     simp [Gen.parseTypeRejected, List.find?, e10, e41, e250]
   simp [this, pure, P.pure]
 
-/-- everything of a record after the owner field and the blanks that follow it; `R0` is the text
-    after the type field (blanks, RDATA, end of line) -/
-def recordBody (sep : List UInt8) (ttl : Option Nat) (clsT : Option (List UInt8)) (cf : Bool)
+/-- everything of a record after the owner field and the gap that follows it; `R0` is the text
+    after the type field (gap, RDATA, end of line) -/
+def recordBody (gA gB : List UInt8) (ttl : Option Nat) (clsT : Option (List UInt8)) (cf : Bool)
     (tyT R0 : List UInt8) : List UInt8 :=
-  tcText sep ttl clsT cf ++ (tyT ++ R0)
+  tcText gA gB ttl clsT cf ++ (tyT ++ R0)
 
-theorem recordBody_head (sep : List UInt8) (ttl : Option Nat) (clsT : Option (List UInt8)) (cf : Bool)
+theorem recordBody_head (gA gB : List UInt8) (ttl : Option Nat) (clsT : Option (List UInt8)) (cf : Bool)
     (tyT R0 : List UInt8) (hcls : ∀ T, clsT = some T → FieldText T) (hty : FieldText tyT) :
-    ∃ c t, recordBody sep ttl clsT cf tyT R0 = c :: t ∧ fieldStart c := by
+    Starts (recordBody gA gB ttl clsT cf tyT R0) := by
   unfold recordBody
   cases ttl with
   | some t =>
@@ -169,32 +185,35 @@ theorem recordBody_head (sep : List UInt8) (ttl : Option Nat) (clsT : Option (Li
     | some cT =>
       cases cf with
       | false =>
-        obtain ⟨c, x, hx, hs⟩ := decimal_starts t (sep ++ (cT ++ sep) ++ (tyT ++ R0))
+        obtain ⟨c, x, hx, hs⟩ := decimal_starts t (gA ++ (cT ++ gB) ++ (tyT ++ R0))
         exact ⟨c, x, by rw [← hx]; simp [tcText], hs⟩
       | true =>
-        obtain ⟨c, x, hx, hs⟩ := (hcls cT rfl).head (sep ++ (decimal t ++ sep) ++ (tyT ++ R0))
+        obtain ⟨c, x, hx, hs⟩ := (hcls cT rfl).head (gA ++ (decimal t ++ gB) ++ (tyT ++ R0))
         exact ⟨c, x, by rw [← hx]; simp [tcText], hs⟩
     | none =>
-      obtain ⟨c, x, hx, hs⟩ := decimal_starts t (sep ++ (tyT ++ R0))
-      exact ⟨c, x, by rw [← hx]; cases cf <;> simp [tcText], hs⟩
+      obtain ⟨c, x, hx, hs⟩ := decimal_starts t (gA ++ (tyT ++ R0))
+      exact ⟨c, x, by rw [← hx]; simp [tcText], hs⟩
   | none =>
     cases clsT with
     | some cT =>
-      obtain ⟨c, x, hx, hs⟩ := (hcls cT rfl).head (sep ++ (tyT ++ R0))
-      exact ⟨c, x, by rw [← hx]; cases cf <;> simp [tcText], hs⟩
+      obtain ⟨c, x, hx, hs⟩ := (hcls cT rfl).head (gA ++ (tyT ++ R0))
+      exact ⟨c, x, by rw [← hx]; simp [tcText], hs⟩
     | none =>
       obtain ⟨c, x, hx, hs⟩ := hty.head R0
-      exact ⟨c, x, by rw [← hx]; cases cf <;> simp [tcText], hs⟩
+      exact ⟨c, x, by rw [← hx]; simp [tcText], hs⟩
 
 /-- the record parser from the TTL/class/type fields on: values, RDATA, and the new context;
     `hrd` says what `parse_rdata` makes of the text after the type field -/
-theorem recordTail_eval (ctx : Ctx) (owner : List UInt8) (startLine : Nat) (sep : List UInt8) (hne : sep ≠ [])
-    (hsep : ∀ x ∈ sep, isWs x = true) (ttl : Option Nat) (cls : Option (List UInt8 × Nat)) (cf : Bool)
+theorem recordTail_eval (ctx : Ctx) (owner : List UInt8) (startLine : Nat) (gA gB : PGap) (q1 q2 q3 : Bool)
+    (ttl : Option Nat) (cls : Option (List UInt8 × Nat)) (cf : Bool)
     (ht : ∀ t, ttl = some t → t ≤ 4294967295) (hk : ∀ T k, cls = some (T, k) → ClassTextOK T k)
+    (hA : ttl.isSome = true ∨ cls.isSome = true → GapOK gA q1 q2)
+    (hB : ttl.isSome = true → cls.isSome = true → GapOK gB q2 q3)
     (tyT : List UInt8) (ty : Nat) (hty : TypeTextOK tyT ty) (h10 : ty ≠ 10) (h41 : ty ≠ 41) (h250 : ty ≠ 250)
     (tv cv : Nat) (htv : ttlChoice ctx ttl = some tv) (hcv : clsChoice ctx (cls.map (·.2)) = some cv)
     (R0 : List UInt8) (hR0 : atFieldEnd R0 = true) (rd r : List UInt8) (line line' : Nat)
-    (hrd : parseRdata ctx cv ty ⟨R0, line, false⟩ = .ok (rd, ⟨r, line', false⟩)) :
+    (hrd : parseRdata ctx cv ty ⟨R0, line + tcLines (gapLines gA) (gapLines gB) ttl cls, tcEnd q1 q2 q3 ttl cls⟩ =
+      .ok (rd, ⟨r, line', false⟩)) :
     (do
       skipToNextField Kind.ExpectedTtlClassOrType
       let __x ← parseTtlAndClass ctx
@@ -206,7 +225,7 @@ theorem recordTail_eval (ctx : Ctx) (owner : List UInt8) (startLine : Nat) (sep 
           pure
               (some (Item.record startLine { owner := owner, ttl := ttl, cls := cls, ty := ty, rdata := rdata }),
                 { ctx with prevOwner := some owner, prevTtl := some ttl, prevClass := some cls }) : P (Option Item × Ctx))
-      ⟨recordBody sep ttl (cls.map (·.1)) cf tyT R0, line, false⟩ =
+      ⟨recordBody (gapText gA) (gapText gB) ttl (cls.map (·.1)) cf tyT R0, line, q1⟩ =
     .ok ((some (.record startLine ⟨owner, tv, cv, ty, rd⟩),
           { ctx with prevOwner := some owner, prevTtl := some tv, prevClass := some cv }),
          ⟨r, line', false⟩) := by
@@ -215,11 +234,11 @@ theorem recordTail_eval (ctx : Ctx) (owner : List UInt8) (startLine : Nat) (sep 
     cases cls with
     | none => simp at hT
     | some ck => obtain ⟨cT, k⟩ := ck; simp at hT; subst hT; exact (hk cT k rfl).field
-  obtain ⟨st1, h1, h2⟩ := ttlClass_eval ctx sep hne hsep ttl cls cf ht hk tyT ty hty R0 hR0 tv cv htv hcv line
+  obtain ⟨st1, h1, h2⟩ := ttlClass_eval ctx gA gB q1 q2 q3 ttl cls cf ht hk hA hB tyT ty hty R0 hR0 tv cv htv hcv line
   have hskip0 := skipTo_nil .ExpectedTtlClassOrType _
-    (recordBody_head sep ttl (cls.map (·.1)) cf tyT R0 hclsF hty.field) line false
+    (recordBody_head (gapText gA) (gapText gB) ttl (cls.map (·.1)) cf tyT R0 hclsF hty.field) line q1
   simp only [bind, P.bind, hskip0]
   unfold recordBody
-  simp only [h1, h2, parseTypeField_eval tyT ty hty h10 h41 h250 _ hR0 line false, hrd, pure, P.pure]
+  simp only [h1, h2, parseTypeField_eval tyT ty hty h10 h41 h250 _ hR0, hrd, pure, P.pure]
 
 end QV.ZF
